@@ -481,6 +481,12 @@ def r2_dtype(program, folder, rep, sites):
     symmetric = all(table.get((a, n)) == table.get((n, a))
                     for a in range(4) for n in range(4))
     for fn, call, b in sites:
+        if fn is None or call is None:
+            rep.undecided(["C07-R2"], "the packets of a block transfer are "
+                          "no longer built by a nested generator: the "
+                          "per-command access type is not analysed in that "
+                          "form")
+            continue
         fl = Flow(fn)
         node = fl.cfg.node_containing(call)
         inst = qual(fn)
@@ -709,8 +715,11 @@ def check(program, rep):
     program.module(SCP)
     program.module(MC)
     folder = Folder(program)
-    rfn = program.get(SCP + ":SCPConnection.read.packets")
-    wfn = program.get(SCP + ":SCPConnection.write.packets")
+    rfn = wfn = None
+    if program.has(SCP + ":SCPConnection.read.packets"):
+        rfn = program.get(SCP + ":SCPConnection.read.packets")
+    if program.has(SCP + ":SCPConnection.write.packets"):
+        wfn = program.get(SCP + ":SCPConnection.write.packets")
     c1, b1 = rep.guard("C07-R1", r1_scp_read, program, folder, rep) or (
         None, None)
     c2, b2 = rep.guard("C07-R1", r1_scp_write, program, folder, rep) or (
